@@ -61,9 +61,21 @@ package verifspec
 //@   ensures found ==> impl.PkgPath == gls.byReference[sym].Implementation.PkgPath && impl.Name == gls.byReference[sym].Implementation.Name
 
 
-//@ extern compiler/linkname.lookupTopNode
-//@   param file name
+// lookupTopNode: a function declaration is returned only under its own name, and nil only if no function of the file has
+// that name (so a directive above a function is matched with that function or with an earlier declaration of the name).
+//@ func compiler/linkname.lookupTopNode
+//@ property C10
+//@   panics_only_if true
+//@   requires file != nil
 //@   assigns nothing
+//@   loop 1 invariant 0 <= $i1 && $i1 <= len(file.Decls)
+//@   loop 1 invariant forall(k, 0, $i1, typeis(file.Decls[k], "*go/ast.FuncDecl") ==> asptr(ref(file.Decls[k]), "go/ast.FuncDecl").Name.Name != name)
+//@   loop 2 invariant 0 <= $i1 && $i1 < len(file.Decls)
+//@   loop 2 invariant forall(k, 0, $i1, typeis(file.Decls[k], "*go/ast.FuncDecl") ==> asptr(ref(file.Decls[k]), "go/ast.FuncDecl").Name.Name != name)
+//@   loop 3 invariant 0 <= $i1 && $i1 < len(file.Decls)
+//@   loop 3 invariant forall(k, 0, $i1, typeis(file.Decls[k], "*go/ast.FuncDecl") ==> asptr(ref(file.Decls[k]), "go/ast.FuncDecl").Name.Name != name)
+//@   ensures typeis(result, "*go/ast.FuncDecl") ==> asptr(ref(result), "go/ast.FuncDecl").Name.Name == name
+//@   ensures result == nil ==> forall(k, 0, len(file.Decls), typeis(file.Decls[k], "*go/ast.FuncDecl") ==> asptr(ref(file.Decls[k]), "go/ast.FuncDecl").Name.Name != name)
 //@ extern compiler/linkname.isMitigatedVarLinkname
 //@   param sym
 //@   assigns nothing
